@@ -18,7 +18,17 @@ def _delegates_to_policy(ctx, tr, h):
     if h.name is None or not any(isinstance(c, ast.Call) and isinstance(c.func, ast.Attribute) and c.func.attr == 'cast_value'
                                  for st in tr.body for c in ast.walk(st)):
         return False
-    params = _param_names(ctx, tr)
+    params = set(_param_names(ctx, tr))
+    # a local bound once to something built from a parameter (handler = wrap_handler(on_error or raise_exception)) is the policy too
+    fn_ = ctx.repo.enclosing_func(tr)
+    if fn_ is not None:
+        binds_ = {}
+        for a_ in ast.walk(fn_.node):
+            if isinstance(a_, ast.Assign) and len(a_.targets) == 1 and isinstance(a_.targets[0], ast.Name):
+                binds_.setdefault(a_.targets[0].id, []).append(a_.value)
+        for nm_, vs_ in binds_.items():
+            if len(vs_) == 1 and any(isinstance(x, ast.Name) and x.id in params for x in ast.walk(vs_[0])):
+                params.add(nm_)
     paths = Enumerator(where='handler').paths(h.body)
     if not paths:
         return False
